@@ -208,6 +208,39 @@ CHECKS["C10"] = dict(
          "label, reference); end extensions and non-uniform scale not exercised.",
     design="4 C10")
 
+CHECKS["C06"] = dict(
+    level="model_checking",
+    technique="TLA+ spec Hierarchy.tla (Flat = structural recursion composing exact affine maps "
+              "over literal outlines; Flattened; denotation of results with residual repetitions); "
+              "TLC-enumerated hierarchies and step sequences replayed on real cells; results "
+              "validated by TLC",
+    text="TLC enumerates the one-level product reflection x rotation (incl. +-atan(4/3)) x "
+         "magnification x reference repetition x element kind x element repetition, chains of "
+         "depth 3 and diamonds with shared sub-cells and dangling references, each with a sequence "
+         "of steps (get_polygons/flexpaths/robustpaths/labels with repetitions applied or left "
+         "attached, depth limits, tag filters per path element, deep copy + mutation, flatten, "
+         "queries after flatten); for every step TLC compares the denotation of what gdstk "
+         "returned (outline rings up to rotation/orientation and collinear vertices, expanded by "
+         "residual repetitions) with Flat of the specification's hierarchy.",
+    note="Trusted: TLC, Base/Hierarchy arithmetic; path outlines are opaque (gdstk's to_polygons "
+         "of the untransformed element), scale_width = true. Quick tier samples 1/7 of the product.",
+    design="4 C06")
+CHECKS["C09"] = dict(
+    level="model_checking",
+    technique="same pipeline as C06: Hierarchy.tla's Flat gives the exact point set; BBox and "
+              "HullOK (contains every point, corners are geometry points; overflow-safe cross "
+              "products) are evaluated by TLC on gdstk's bounding_box / convex_hull results",
+    text="For every hierarchy of C06 plus degenerate contents (empty, single point, horizontal, "
+         "vertical and descending-diagonal collinear sets) under rotated/reflected references with "
+         "explicit repetitions (incl. an offset extreme only along a diagonal), TLC checks the "
+         "bounding box of cell and reference against the exact min/max of all flattened vertices "
+         "and label positions, the inverted box of empty cells, and that each reported hull "
+         "contains all geometry and has only geometry points as corners -- with a fresh cache and "
+         "with one cache shared across queries in different orders.",
+    note="Trusted: TLC, Hierarchy.tla. Caches are cleared by the harness when the cell changes "
+         "(the property is about unchanged cells).",
+    design="4 C09")
+
 NOT_YET = {}
 
 
